@@ -164,6 +164,99 @@ def be32(n):
     return (n & 0xFFFFFFFF).to_bytes(4, "big")
 
 
+def parse_container(raw):
+    """openssh-key-v1: (cipher, kdf, kdfoptions, nkeys, [public blobs], private section, trailing bytes) or None;
+    public blobs are read as ``nkeys`` strings (capped), so only well-formed containers parse"""
+    pos = 15
+    out = []
+
+    def rd():
+        nonlocal pos
+        if pos + 4 > len(raw):
+            raise ValueError
+        n = int.from_bytes(raw[pos:pos + 4], "big")
+        if pos + 4 + n > len(raw):
+            raise ValueError
+        v = raw[pos + 4:pos + 4 + n]
+        pos += 4 + n
+        return v
+    try:
+        cipher, kdf, opts = rd(), rd(), rd()
+        nkeys = int.from_bytes(raw[pos:pos + 4], "big")
+        pos += 4
+        if nkeys > 8:
+            return None
+        pubs = [rd() for _ in range(nkeys)]
+        priv = rd()
+    except ValueError:
+        return None
+    return cipher, kdf, opts, nkeys, pubs, priv, raw[pos:]
+
+
+def build_container(cipher, kdf, opts, nkeys, pubs, priv, rest=b""):
+    return (b"openssh-key-v1\x00" + lk.sstr(cipher) + lk.sstr(kdf) + lk.sstr(opts) + be32(nkeys)
+            + b"".join(lk.sstr(p) for p in pubs) + lk.sstr(priv) + rest)
+
+
+def split_private(priv):
+    """unencrypted private section: (check, [(type, pub, keydata-rest…raw entry bytes)], padding) — entries are kept
+    as raw byte runs: type string + the strings up to and including the comment, by key type"""
+    if len(priv) < 8:
+        return None
+    pos = 8
+
+    def rd():
+        nonlocal pos
+        n = int.from_bytes(priv[pos:pos + 4], "big")
+        if pos + 4 + n > len(priv):
+            raise ValueError
+        v = priv[pos + 4:pos + 4 + n]
+        pos += 4 + n
+        return v
+    try:
+        start = pos
+        t = rd()
+        nfields = {b"ssh-ed25519": 3, b"ssh-rsa": 7}.get(t, None)
+        if nfields is None and t.startswith(b"ecdsa-sha2-"):
+            nfields = 4
+        if nfields is None:
+            return None
+        for _ in range(nfields):
+            rd()
+    except ValueError:
+        return None
+    return priv[:8], priv[start:pos], priv[pos:]
+
+
+def recount_container(rng, raw):
+    """CONSISTENT count edits: set the key count to 0 / 2 / 3 / huge and add or remove the repeated elements it
+    announces (public blobs; for unencrypted files optionally the private entries too), so that everything after
+    stays aligned; plus the inconsistent variants (count changed, elements not / elements changed, count not)"""
+    c = parse_container(raw)
+    if c is None or c[3] != 1:
+        return None
+    cipher, kdf, opts, _n, pubs, priv, rest = c
+    pub = pubs[0]
+    n = rng.choice([0, 0, 0, 2, 2, 3, 0xFFFFFFFF])
+    style = rng.choice(["consistent", "consistent", "consistent+private", "count-only", "elements-only"])
+    small = n if n <= 3 else 2
+    new_priv = priv
+    if style == "consistent":
+        new_pubs, cnt = [pub] * small, n
+    elif style == "consistent+private":
+        new_pubs, cnt = [pub] * small, n
+        sp = split_private(priv) if cipher == b"none" else None
+        if sp is not None:
+            body = sp[0] + sp[1] * small
+            pad = bytes(range(1, 1 + (-len(body)) % 8))
+            new_priv = body + pad
+    elif style == "count-only":
+        new_pubs, cnt = [pub], n
+    else:
+        new_pubs, cnt = [pub] * small, 1
+    return "ossh:recount:%s:%s" % (style, "huge" if n > 3 else n), build_container(cipher, kdf, opts, cnt, new_pubs, new_priv, rest)
+
+
 def mutate_container(rng, data):
     """structure-aware mutation: decode the base64 body, edit the binary container, re-armor.
     Returns (label, bytes) or None when the file has no armor."""
@@ -178,6 +271,10 @@ def mutate_container(rng, data):
     if not raw:
         return None
     width = rng.choice([None, None, 70, 76, 48, 1000])
+    if raw.startswith(b"openssh-key-v1\x00") and rng.random() < 0.3:
+        m = recount_container(rng, raw)
+        if m is not None:
+            return m[0], join_armor(prefix, begin, hdr, m[1], end, width)
     if raw.startswith(b"openssh-key-v1\x00"):
         k = rng.randrange(12)
         pos = 15
